@@ -59,7 +59,7 @@ pub fn strategy() -> impl Strategy<Value = Case> {
         any::<u16>(),
         // mostly millisecond-scale run times; one case in sixteen has dependencies that take
         // 3.3 s, during which nothing in their group finishes
-        prop_oneof![15 => 0u8..4, 1 => Just(4u8)],
+        prop_oneof![14 => 0u8..4, 1 => Just(4u8), 1 => Just(5u8)],
         vec(0u64..80, 40),
     )
         .prop_map(|(raw, mode_k, picks, ncmd, split, timing_k, rnd)| {
@@ -106,7 +106,7 @@ pub fn strategy() -> impl Strategy<Value = Case> {
             };
             let lv = levels(&config);
             let maxl = lv.iter().copied().max().unwrap_or(0);
-            let timing = ["zero", "random", "deps-slower", "earlier-command-slower", "dependencies-take-seconds"][timing_k as usize];
+            let timing = ["zero", "random", "deps-slower", "earlier-command-slower", "dependencies-take-seconds", "dependencies-detach-their-output"][timing_k as usize];
             let mut sleeps = vec![];
             let mut k = 0;
             for (ci, c) in names.iter().enumerate() {
@@ -122,6 +122,14 @@ pub fn strategy() -> impl Strategy<Value = Case> {
                         4 => {
                             if lv[ti] == 0 && ci == 0 {
                                 3300
+                            } else {
+                                0
+                            }
+                        }
+                        // the dependencies close their stdout and stderr at once and go on for 1.4-2.8 s
+                        5 => {
+                            if lv[ti] == 0 && ci == 0 {
+                                1400 + (split as u64 % 1400)
                             } else {
                                 0
                             }
@@ -296,6 +304,7 @@ pub fn check(case: &Case, w: usize) -> CheckResult {
             (c.clone(), t.clone()),
             Behavior {
                 sleep_ms: *ms,
+                detach_output: case.timing == "dependencies-detach-their-output" && *ms >= 1000,
                 ..Default::default()
             },
         );
@@ -353,7 +362,15 @@ pub fn check(case: &Case, w: usize) -> CheckResult {
             json!({"want": want_cmds, "got": got_cmds}),
         );
     }
-    let traces = env.traces();
+    let mut traces = env.traces();
+    // a helper that has not written its end record yet is still running although `run` has
+    // returned: wait for it (its own sleep plus a few seconds), its exit time is needed below
+    let longest = case.sleeps.iter().map(|s| s.2).max().unwrap_or(0);
+    let t_wait = std::time::Instant::now();
+    while traces.iter().any(|t| t.end_ns.is_none()) && t_wait.elapsed() < std::time::Duration::from_millis(longest + 5_000) {
+        std::thread::sleep(std::time::Duration::from_millis(20));
+        traces = env.traces();
+    }
     // a repeated command has one trace per occurrence: the i-th start belongs to the i-th place
     let mut per_key: BTreeMap<(String, String), Vec<(u128, u128)>> = BTreeMap::new();
     for t in &traces {
